@@ -13,6 +13,7 @@ import DEvo.Run.History
 import DEvo.Run.Migrations
 import DEvo.Run.Load
 import DEvo.Run.Batches
+import DEvo.Run.Merge
 
 /-! Line protocol driver: one JSON object per input line, one JSON object per output line.
 Only model modules (no Mathlib/Batteries) are imported, so this links as a `lean_exe`. -/
@@ -229,6 +230,26 @@ def handle (j : Json) : Except String Json := do
     pure (Json.mkObj [("batches", Json.arr (out.map (fun (bf : List Run.Prep × Option Bool) =>
       Json.mkObj [("sql", Json.arr (bf.1.map (fun q => Json.str q.stmt)).toArray),
                   ("tx", match bf.2 with | none => Json.null | some b => Json.bool b)])).toArray)])
+  | "merge_batches" =>
+    -- merge_dicts over the batch infos of consecutive graph nodes: [{"tasks": [[task, evolutions, mutations]], "new_models": [..]}]
+    let infosJ ← (← j.getObjVal? "infos").getArr?
+    let infos : List Run.BatchInfo ← infosJ.toList.mapM (fun b => do
+      let tasksJ ← (← b.getObjVal? "tasks").getArr?
+      let tasks : List (String × Run.TaskInfo) ← tasksJ.toList.mapM (fun t => do
+        let q ← t.getArr?
+        match q.toList with
+        | [k, ev, mu] => do pure (← k.getStr?, (⟨← Codec.strList ev, ← Codec.strList mu⟩ : Run.TaskInfo))
+        | _ => throw "bad task entry")
+      let nm ← Codec.strList (← b.getObjVal? "new_models")
+      pure (⟨tasks, nm⟩ : Run.BatchInfo))
+    match infos with
+    | [] => throw "no infos"
+    | b0 :: rest =>
+      let out := rest.foldl (Run.mergeBatch DEvo.Generated.mergeListsDestFirst) b0
+      pure (Json.mkObj [("tasks", Json.arr (out.tasks.map (fun (kv : String × Run.TaskInfo) =>
+          Json.arr #[Json.str kv.1, Json.arr (kv.2.evolutions.map Json.str).toArray,
+                     Json.arr (kv.2.mutations.map Json.str).toArray])).toArray),
+        ("new_models", Json.arr (out.newModels.map Json.str).toArray)])
   | "load_attrs" =>
     -- FieldSignature.deserialize: which stored attributes come back (values are JSON texts, none = null)
     let known ← Codec.strList (← j.getObjVal? "known")
